@@ -12,6 +12,7 @@ import HcipyVerif.Lemmas.FftPlan
 import HcipyVerif.Lemmas.ZoomN
 import HcipyVerif.Model.FftWeights
 import HcipyVerif.Lemmas.Nft
+import HcipyVerif.Lemmas.Multiplex
 
 /-!
 # C01 — every Fourier transform evaluates the same weighted Fourier sum
@@ -219,6 +220,55 @@ theorem naive_backward_eq_sum (m : ℕ) (us xs : List (ℕ → K)) (wOut F : ℕ
     nftBackwardFly E m us xs wOut F j = ∑ k ∈ range m, F k * wOut k * E (dotCoords us xs k j) ∧
     nftBackwardMat E m us xs wOut F j = ∑ k ∈ range m, F k * wOut k * E (dotCoords us xs k j) :=
   ⟨nft_backward_fly_eq_sum E m us xs wOut F j, nft_backward_mat_eq_sum E m us xs wOut F j⟩
+
+/-! ### Tensor fields: `multiplex_for_tensor_fields` -/
+
+/-- **A tensor field is transformed component by component** — for every tensor shape `ts`
+(any order, any extents), every valid tensor multi-index `idx` and every wrapped function `func`
+(`n` samples ↦ `m` samples): sample `k` of component `idx` of the result (raveled position
+`tensorRavel ts idx · m + k`, which lies inside the `tensorSize ts · m` output samples) is
+`func` applied to component `idx` of the input (raveled block `tensorRavel ts idx · n + ·`).
+`multiplexTensor` is the model of the decorator run by the driver op `C01 mux` and compared with
+`NaiveFourierTransform.forward/backward` on tensor fields (family `tie-mux`). -/
+theorem multiplex_componentwise (func : (ℕ → C) → ℕ → C) (ts idx : List ℕ) (hts : ts ≠ [])
+    (hidx : TensorIdx ts idx) (n m : ℕ) (X : ℕ → C) (k : ℕ) (hk : k < m) :
+    multiplexTensor func ts n m X (tensorRavel ts idx * m + k)
+        = func (fun j => X (tensorRavel ts idx * n + j)) k ∧
+      tensorRavel ts idx * m + k < tensorSize ts * m := by
+  refine ⟨multiplexTensor_block func ts hts n m X _ k hk, ?_⟩
+  have h := tensorRavel_lt ts idx hidx
+  calc tensorRavel ts idx * m + k < tensorRavel ts idx * m + m := by omega
+    _ = (tensorRavel ts idx + 1) * m := by ring
+    _ ≤ tensorSize ts * m := Nat.mul_le_mul_right _ h
+
+/-- a scalar field (`tensor_shape = ()`) goes straight to the wrapped function -/
+theorem multiplex_scalar (func : (ℕ → C) → ℕ → C) (n m : ℕ) (X : ℕ → C) :
+    multiplexTensor func [] n m X = func X := rfl
+
+/-- **Transform of a tensor field = the defining sum of every component** (forward and backward,
+both NaiveFourierTransform paths, any tensor shape, arbitrary point sets in any dimension): the
+executed composition `multiplexTensor ∘ nft…` evaluates, at component `idx` and output sample `k`,
+the weighted Fourier sum of component `idx` of the input. -/
+theorem tensor_field_transform_eq_sums (ts idx : List ℕ) (hts : ts ≠ []) (hidx : TensorIdx ts idx)
+    (n m : ℕ) (us xs : List (ℕ → K)) (w wOut : ℕ → C) (X : ℕ → C) :
+    (∀ k < m, multiplexTensor (nftForwardFly E n us xs w) ts n m X (tensorRavel ts idx * m + k)
+        = ∑ j ∈ range n, X (tensorRavel ts idx * n + j) * w j * E (-(dotCoords us xs k j))) ∧
+    (∀ k < m, multiplexTensor (nftForwardMat E n us xs w) ts n m X (tensorRavel ts idx * m + k)
+        = ∑ j ∈ range n, X (tensorRavel ts idx * n + j) * w j * E (-(dotCoords us xs k j))) ∧
+    (∀ j < n, multiplexTensor (nftBackwardFly E m us xs wOut) ts m n X (tensorRavel ts idx * n + j)
+        = ∑ k ∈ range m, X (tensorRavel ts idx * m + k) * wOut k * E (dotCoords us xs k j)) ∧
+    (∀ j < n, multiplexTensor (nftBackwardMat E m us xs wOut) ts m n X (tensorRavel ts idx * n + j)
+        = ∑ k ∈ range m, X (tensorRavel ts idx * m + k) * wOut k * E (dotCoords us xs k j)) := by
+  refine ⟨fun k hk => ?_, fun k hk => ?_, fun j hj => ?_, fun j hj => ?_⟩
+  · rw [multiplexTensor_block _ ts hts n m X _ k hk, nft_forward_fly_eq_sum]
+  · rw [multiplexTensor_block _ ts hts n m X _ k hk, nft_forward_mat_eq_sum]
+  · rw [multiplexTensor_block _ ts hts m n X _ j hj, nft_backward_fly_eq_sum]
+  · rw [multiplexTensor_block _ ts hts m n X _ j hj, nft_backward_mat_eq_sum]
+
+/-- satisfiability: the index `(1, 0, 2)` of a field of tensor shape `(2, 1, 3)` -/
+example : ([2, 1, 3] : List ℕ) ≠ [] ∧ TensorIdx [2, 1, 3] [1, 0, 2] ∧ tensorRavel [2, 1, 3] [1, 0, 2] = 5 := by
+  refine ⟨by simp, ?_, rfl⟩
+  simp [TensorIdx]
 
 /-- **NaiveFourierTransform = MatrixFourierTransform (1-D)** on the same coordinates, both weight
 branches of the MFT, both NFT paths. -/
